@@ -29,14 +29,16 @@ theorem runWrapped_exit {runF : RunF} (HG : HypG runF) (HA : HypA runF) (lf : Na
     cases ol with
     | normal => exact ⟨l5 rfl, fun h => absurd h hoo⟩
     | stuck => exact absurd rfl l1.1
-    | exit e => exact absurd rfl (l1.2 e)
+    | exit e => exact absurd rfl (l1.2.1 e)
+    | yielded => exact absurd rfl l1.2.2
     | thrown => exact absurd rfl l2
     | fatal => exact ⟨by simp [leaveAbrupt], fun _ => by simp [leaveAbrupt]⟩
   cases o with
   | normal => exact tail .normal (by simp)
   | thrown => exact tail .thrown (by simp)
   | stuck => exact absurd rfl h1.1
-  | exit e => exact absurd rfl (h1.2 e)
+  | exit e => exact absurd rfl (h1.2.1 e)
+  | yielded => exact absurd rfl h1.2.2
   | fatal => simp [hl0, leaveAbrupt]
 
 /-- **RunProgram (outermost) is balanced** and leaves the queue empty -/
@@ -68,7 +70,7 @@ theorem runProgramOuter_spec {runF : RunF} (HG : HypG runF) (HA : HypA runF) (lf
     · simpa [outerPop, e5, outerEnter] using h2.ts
     · simpa [outerPop, e6, outerEnter] using h2.is
     · simpa [outerPop, e7, outerEnter] using h2.rs
-  have tail : ∀ oo : Outcome, oo ≠ .fatal → (oo ≠ .stuck ∧ ∀ e, oo ≠ .exit e) → s4.interrupted = s.interrupted →
+  have tail : ∀ oo : Outcome, oo ≠ .fatal → (oo ≠ .stuck ∧ (∀ e, oo ≠ .exit e) ∧ oo ≠ .yielded) → s4.interrupted = s.interrupted →
       let l := leaveLoop runF lf { s4 with prg := none, sb := -1 }
       let res : Res := (match l.1 with
         | .normal => (oo, outerPop l.2)
@@ -90,25 +92,27 @@ theorem runProgramOuter_spec {runF : RunF} (HG : HypG runF) (HA : HypA runF) (lf
       exact ⟨⟨hns, hsame, fun _ => by simpa [outerPop] using (l4 (by simp)).trans hq4⟩,
         by simpa [outerPop] using l5 rfl, fun h => absurd h hnf⟩
     | stuck => exact absurd rfl l1.1
-    | exit e => exact absurd rfl (l1.2 e)
+    | exit e => exact absurd rfl (l1.2.1 e)
+    | yielded => exact absurd rfl l1.2.2
     | thrown => exact absurd rfl l2
     | fatal =>
       have hl0 : (outerPop sl).callStack.length = 0 := by rw [hsame.cs, h0]; rfl
       simp only [hl0, if_true]
-      exact ⟨⟨⟨by simp, by simp⟩, hsame.trans (leaveAbrupt_same (hsame.inv (fun _ => ⟨hprg, hsb⟩)) hl0), by simp [Quiet]⟩,
+      exact ⟨⟨⟨by simp, by simp, by simp⟩, hsame.trans (leaveAbrupt_same (hsame.inv (fun _ => ⟨hprg, hsb⟩)) hl0), by simp [Quiet]⟩,
         by simp [leaveAbrupt], fun _ => by simp [leaveAbrupt]⟩
   cases o with
-  | normal => exact tail .normal (by simp) ⟨by simp, by simp⟩ (by simpa [outerEnter] using h3 (by simp))
-  | thrown => exact tail .thrown (by simp) ⟨by simp, by simp⟩ (by simpa [outerEnter] using h3 (by simp))
+  | normal => exact tail .normal (by simp) ⟨by simp, by simp, by simp⟩ (by simpa [outerEnter] using h3 (by simp))
+  | thrown => exact tail .thrown (by simp) ⟨by simp, by simp, by simp⟩ (by simpa [outerEnter] using h3 (by simp))
   | stuck => exact absurd rfl h1.1
-  | exit e => exact absurd rfl (h1.2 e)
+  | exit e => exact absurd rfl (h1.2.1 e)
+  | yielded => exact absurd rfl h1.2.2
   | fatal =>
     simp only
     have hl0 : (outerPop s4).callStack.length = 0 := by simp [outerPop, hcs4]
     simp only [hl0, if_true]
     have hsame : Same s (leaveAbrupt (outerPop s4)) :=
       fin1 { s4 with jobQueue := [], interrupted := false, prg := none, sb := -1 } rfl rfl rfl rfl rfl rfl rfl rfl rfl rfl rfl
-    exact ⟨⟨⟨by simp, by simp⟩, hsame, by simp [Quiet]⟩, by simp [leaveAbrupt, outerPop], fun _ => by simp [leaveAbrupt, outerPop]⟩
+    exact ⟨⟨⟨by simp, by simp, by simp⟩, hsame, by simp [Quiet]⟩, by simp [leaveAbrupt, outerPop], fun _ => by simp [leaveAbrupt, outerPop]⟩
 
 
 theorem apiNode_spec {runF : RunF} (HG : HypG runF) (HA : HypA runF) (lf : Nat) (k : Boundary) (b : Beh)
@@ -151,6 +155,31 @@ theorem seq_good {runF : RunF} (HG : HypG runF) (a b : Beh) (s : Vm) (hI : Inv s
     | fatal => simp only [GoodCtl] at hc2 ⊢; exact hc.ext_left hc2
     | stuck => simp [GoodCtl] at hc2
     | exit e => simp only [GoodCtl] at hc2 ⊢; exact hc.trans hc2
+    | yielded => simp only [GoodCtl] at hc2 ⊢; exact ⟨hc.ext_left hc2.1, hc2.2.trans hc.cs⟩
+  | thrown => exact ⟨by simpa [GoodCtl] using hc, fun _ => hq (by simp)⟩
+  | fatal => exact ⟨by simpa [GoodCtl] using hc, by simp [Quiet]⟩
+  | stuck => simp [GoodCtl] at hc
+  | exit e => exact ⟨by simpa [GoodCtl] using hc, fun _ => hq (by simp)⟩
+  | yielded =>
+    simp only [GoodCtl] at hc
+    exact ⟨by simp only [GoodCtl]; exact ⟨⟨hc.1.cs, hc.1.is, hc.1.rs, hc.1.ts⟩, hc.2⟩, fun _ => hq (by simp)⟩
+
+theorem yieldThen_good {runF : RunF} (HG : HypG runF) (a b : Beh) (s : Vm) (hI : Inv s) :
+    Good s (yieldThenRes runF a b s) := by
+  unfold yieldThenRes
+  simp only
+  have hg := HG a s hI
+  generalize runF a s = r at hg
+  obtain ⟨o, s1⟩ := r
+  obtain ⟨hc, hq⟩ := hg
+  cases o with
+  | normal =>
+    simp only [GoodCtl] at hc
+    have he := hc.toExt false
+    exact ⟨by simp only [GoodCtl]; exact ⟨⟨he.cs, he.is, he.rs, he.ts⟩, hc.cs⟩, fun _ => hq (by simp)⟩
+  | yielded =>
+    simp only [GoodCtl] at hc
+    exact ⟨by simp only [GoodCtl]; exact ⟨⟨hc.1.cs, hc.1.is, hc.1.rs, hc.1.ts⟩, hc.2⟩, fun _ => hq (by simp)⟩
   | thrown => exact ⟨by simpa [GoodCtl] using hc, fun _ => hq (by simp)⟩
   | fatal => exact ⟨by simpa [GoodCtl] using hc, by simp [Quiet]⟩
   | stuck => simp [GoodCtl] at hc
@@ -163,11 +192,17 @@ theorem step_good {runF : RunF} (HG : HypG runF) (HA : HypA runF) (lf : Nat) :
   cases b with
   | skip => exact ⟨by simpa [step, GoodCtl] using Same.refl s, fun _ => rfl⟩
   | seq a b => simpa [step] using seq_good HG a b s hI
-  | yieldThen a b => simpa [step] using seq_good HG a b s hI
+  | yieldThen a b => simpa [step] using yieldThen_good HG a b s hI
+  | yield_ =>
+    have he := (Same.refl s).toExt false
+    exact ⟨by simp only [step, GoodCtl]; exact ⟨⟨he.cs, he.is, he.rs, he.ts⟩, trivial⟩, fun _ => rfl⟩
+  | resumePoint => exact ⟨by simpa [step, GoodCtl] using Same.refl s, fun _ => rfl⟩
+  | tryH hf cur fin => simpa [step] using tryResumeH_good HG HA hf cur fin s hI
+  | tryF p cur => simpa [step] using tryResumeF_good HG p cur s hI
   | genNew slot n f body => simpa [step] using genNew_good slot n f body s
-  | genNext slot => simpa [step] using genNext_good HG HA slot s
-  | genThrow slot => simpa [step] using genThrow_good HA slot s
-  | genReturn slot => simpa [step] using genReturn_good slot s
+  | genNext slot => simpa [step] using genResume_good HG HA slot none false s
+  | genThrow slot => simpa [step] using genResume_good HG HA slot (some .throw_) true s
+  | genReturn slot => simpa [step] using genResume_good HG HA slot (some .return_) false s
   | asyncNew n f body => simpa [step] using asyncNew_good HG HA n f body s
   | asyncResume id => simpa [step] using asyncResume_good HG HA id s
   | probe id => simpa [step] using probe_good id s
@@ -196,7 +231,8 @@ theorem step_good {runF : RunF} (HG : HypG runF) (HA : HypA runF) (lf : Nat) :
     | normal => exact ⟨by simpa [GoodCtl] using h2, fun _ => h3 (by simp)⟩
     | thrown => exact ⟨by simpa [GoodCtl] using h2, fun _ => h3 (by simp)⟩
     | stuck => exact absurd rfl h1.1
-    | exit e => exact absurd rfl (h1.2 e)
+    | exit e => exact absurd rfl (h1.2.1 e)
+    | yielded => exact absurd rfl h1.2.2
     | fatal =>
       simp only
       split
@@ -234,10 +270,11 @@ theorem runtimeTry_spec (fuel : Nat) (b : Beh) (s : Vm) (hI : Inv s) :
   | normal => exact ⟨⟨h1, h2, h3⟩, by simp⟩
   | thrown => exact ⟨⟨h1, h2, h3⟩, by simp⟩
   | stuck => exact absurd rfl h1.1
-  | exit e => exact absurd rfl (h1.2 e)
+  | exit e => exact absurd rfl (h1.2.1 e)
+  | yielded => exact absurd rfl h1.2.2
   | fatal =>
     simp only
-    refine ⟨⟨⟨by simp, by simp⟩, ?_, by simp [Quiet]⟩, fun _ h0 => ?_⟩
+    refine ⟨⟨⟨by simp, by simp, by simp⟩, ?_, by simp [Quiet]⟩, fun _ h0 => ?_⟩
     · split
       · rename_i hl; exact h2.trans (leaveAbrupt_same (h2.inv hI) hl)
       · exact h2
